@@ -253,6 +253,13 @@ inline std::string read_file(const std::string &p) {
 }
 inline int finish() { cur_case() = nullptr; stats().dump(); return stats().violations.empty() ? 0 : 3; }
 
+// jwt_value_t constructors (the jwt_set_* macros of jwt.h are C-only: they assign 0 to an enum)
+inline jwt_value_t val_get(jwt_value_type_t t, const char *name) { jwt_value_t x; memset(&x, 0, sizeof x); x.type = t; x.name = name; return x; }
+inline jwt_value_t val_int(const char *name, long i, int replace = 0) { jwt_value_t x = val_get(JWT_VALUE_INT, name); x.int_val = i; x.replace = replace; return x; }
+inline jwt_value_t val_str(const char *name, const char *s, int replace = 0) { jwt_value_t x = val_get(JWT_VALUE_STR, name); x.str_val = s; x.replace = replace; return x; }
+inline jwt_value_t val_bool(const char *name, int b, int replace = 0) { jwt_value_t x = val_get(JWT_VALUE_BOOL, name); x.bool_val = b; x.replace = replace; return x; }
+inline jwt_value_t val_json(const char *name, const char *js, int replace = 0) { jwt_value_t x = val_get(JWT_VALUE_JSON, name); x.json_val = (char *)js; x.replace = replace; return x; }
+
 // provider switch (C12 anchors): 0=openssl 1=gnutls
 inline const char *prov_name(int p) { return p ? "gnutls" : "openssl"; }
 inline bool set_provider(int p) { return jwt_set_crypto_ops(prov_name(p)) == 0; }
